@@ -40,6 +40,8 @@ def main():
     env = {"CARGO_TARGET_DIR": f"{wt}/target", "CARGO_NET_OFFLINE": "true"}
     log = {"property": prop, "mutation": m, "ran": []}
     sh("git checkout -- . && git clean -fdq examples", cwd=wt)
+    # the seed worktree follows /repo's HEAD (hook commits may have been added since it was created)
+    sh("git checkout -q --detach $(git -C /repo rev-parse HEAD)", cwd=wt)
     rc, out = sh(f"git apply --check {patch}", cwd=wt)
     log["patch_applies"] = rc == 0
     if rc != 0:
